@@ -39,7 +39,7 @@ REQUIRED_MONITORS = ['steps:normal_mode_checked', 'steps:regenerating_checked', 
 REQUIRED_CLASSES = ['assert=string', 'assert=textfile', 'assert=textfiles', 'assert=binary', 'assert=df_parquet',
                     'assert=df_csv', 'assert=ondisk', 'mode=normal', 'mode=all', 'mode=kinds', 'ref=match', 'ref=differ',
                     'ref=missing'] + ['spelling=%s' % s for s in ('-W', '--write-all', '--W', '-w', '--w', '--write', 'pytest --write-all', 'pytest --write')]
-KINDS = [None, 'csv', 'table', 'graph', 'other', 'DEFAULT']
+KINDS = [None, 'csv', 'table', 'graph', 'other', 'DEFAULT', 'parquet', 'text']
 TEXTS = ['one line\n', 'a\nb\nc\n', 'no final newline', '', 'crlf line\r\nsecond\r\n', 'Ünïcode 日本\nline2\n', '\n\nblank lines\n\n',
          'tabs\tand  spaces \n', 'x' * 300 + '\n']
 AUX = os.path.join(common.VERIF, 'vt', 'aux', 'c10_module.py')
@@ -76,12 +76,15 @@ def gen_step(rng, i):
     else:
         n = rng.choice([1, 3, 6])
         step['rows'] = [[k, round(rng.uniform(-5, 5), 3), rng.choice(['a', 'bb', 'Ünï', 'x y'])] for k in range(n)]
+        if a != 'df_csv' and rng.random() < 0.4:
+            # column types a parquet reference has to keep exactly for the regenerated reference to pass
+            step['extra'] = rng.sample(['dt_ns', 'dt_us', 'dt_tz', 'Int64', 'cat', 'float32', 'uint8', 'bool'], rng.randint(1, 3))   # (not datetime64[s]: parquet itself has no such unit)
     return step
 
 
 def gen_setting(rng, i):
     mode = ['normal', 'all', 'kinds'][i % 3]
-    kinds = rng.sample(['csv', 'table', 'graph', 'other'], rng.randint(1, 3)) if mode == 'kinds' else []
+    kinds = rng.sample(['csv', 'table', 'graph', 'other', 'parquet', 'text'], rng.randint(1, 3)) if mode == 'kinds' else []
     via = ['api', 'argv', 'api', 'argv', 'api', 'pytest'][(i // 3) % 6]
     s = {'mode': mode, 'kinds': kinds, 'via': via, 'argv': [], 'spelling': None}
     if via == 'argv':
@@ -159,7 +162,7 @@ def prepare_refs(case, refdir):
             rows = [list(r) for r in st['rows']]
             if differ:
                 rows[0][1] += 1.5
-            df = c10_steps.build_frame(rows)
+            df = c10_steps.build_frame(rows, st.get('extra', ()))
             if a == 'df_csv':
                 df.to_csv(p, index=False)
             else:
